@@ -33,6 +33,8 @@ def _plain(x):
 class StoreWorld:
     """ops (JSON lists):
       ["add", event]                     storage.add_event
+      ["cadd", [events]]                 several storage.add_event calls started together (overlapping)
+      ["csub", filters, [events]]        a subscription's stored query overlapping with add_event calls
       ["query", filters]                 storage.run_single_query (no max_limit)
       ["sub", filters]                   storage.subscribe + collect until EOSE (applies max_limit)
       ["get", id]                        storage.get_event
@@ -110,6 +112,45 @@ class StoreWorld:
                     o["post"] = env.dump()
                     if self.full_gc:
                         self._full_post(o)
+            elif kind == "cadd":
+                # several events submitted at once: their add_event calls overlap (the scheduler interleaves
+                # their statements / writer tasks)
+                import asyncio as _aio
+                o["pre"] = env.dump()
+                if self.full_gc:
+                    o["pre_full"] = env.dump(full=True)
+
+                async def one(e):
+                    try:
+                        ev, changed = await st.add_event(copy.deepcopy(e))
+                        return ["ok", bool(changed), ev.id]
+                    except Exception as ex:
+                        return ["err", type(ex).__name__, str(ex)[:200]]
+                o["res"] = ["ok", list(await _aio.gather(*[one(e) for e in op[1]]))]
+                o["t_ret"] = sim.stamp()
+                if self.settle_each:
+                    await self.settle()
+                    o["post"] = env.dump()
+                    if self.full_gc:
+                        self._full_post(o)
+            elif kind == "csub":
+                # a REQ whose stored query runs while other events are being written: ["csub", filters, [events]]
+                import asyncio as _aio
+                o["pre"] = env.dump()
+                n0 = len(env.states)
+
+                async def write(e):
+                    try:
+                        ev, changed = await st.add_event(copy.deepcopy(e))
+                        return ["ok", bool(changed), ev.id]
+                    except Exception as ex:
+                        return ["err", type(ex).__name__, str(ex)[:200]]
+                res = await _aio.gather(self.subscribe_collect(op[1], "cs"), *[write(e) for e in op[2]])
+                o["res"] = res[0]
+                o["writes"] = list(res[1:])
+                await self.settle()
+                o["post"] = env.dump()
+                o["during"] = [d for _seq, d in env.states[n0:]]
             elif kind == "query":
                 out = []
                 try:
